@@ -56,6 +56,11 @@ Programs ==
                  A \in {<<1200>>, <<1320, 1200>>}, O \in {<<>>, <<"F1200">>, <<"F1200", "F1200">>}, c \in BOOLEAN, nst \in BOOLEAN}
          \cup {[tag |-> <<"expectmac", A, O>>, files |-> ExpectInMacro(A, O)] : A \in {<<1200>>, <<1200, 1110>>}, O \in SeqsLE({"F1200", "F1110"}, 2)}
          \cup {[tag |-> <<"expect0">>, files |-> [f \in {"a.asm"} |-> <<L(<<>>, "EXPECT", <<>>), L(<<>>, "ENDEXPECT", <<>>), L(<<>>, "ENDEXPECT", N(1))>>]]}
+    [] Family = "expecthist" ->
+         {[tag |-> <<"expecthist", pre, A1, O1, mid, A2, O2, post>>, files |-> ExpectHistory(pre, A1, O1, mid, A2, O2, post)] :
+            pre \in {<<>>, <<"F1200">>}, A1 \in {<<1200>>, <<1200, 1110>>, <<1320>>, <<60>>}, O1 \in SeqsLE({"F1200", "F1110"}, 1),
+            mid \in SeqsLE({"F1200", "F1110", "W60"}, 1) \cup {<<"F1200", "F1200">>} \cup (IF Q THEN {} ELSE {<<"F1320">>, <<"F1110", "F1200">>}),
+            A2 \in {<<>>, <<1200>>, <<1110>>}, O2 \in {<<>>, <<"F1200">>}, post \in {<<>>, <<"F1200">>}}
     [] OTHER -> {}
 Jobs == Programs
 
@@ -92,6 +97,9 @@ PositionsIdentify ==
                             IN \A i, j \in DOMAIN s : (i # j /\ Len(s[i].pos.gnu) = 1 /\ Len(s[j].pos.gnu) = 1) => s[i].pos # s[j].pos
 ExpectExact ==
   (r # <<>> /\ Definite /\ WellFormedExpect(D.raw)) => ExpectAccountingOK(M.delivered, 1) /\ ExpectAccountingOK(D.raw, 1)
+\* the pending list is empty whenever no block is open (machine over the delivered statements, every pass made)
+PendingEmptyOutside ==
+  r # <<>> => (PendingOnlyInsideBlock(M.delivered, 1) /\ PendingOnlyInsideBlock(D.raw, 1))
 ExpectProtocol ==
   (r # <<>> /\ Definite) =>
     LET out == M.mout1
@@ -113,7 +121,7 @@ Shown(d, opt) ==
    chain |-> IF opt.gnu \/ d.pos = Internal THEN <<>> ELSE [i \in 1..(Len(d.pos.native) - 1) |-> El(d.pos.native[i + 1])],
    incl |-> IF ~opt.gnu \/ d.pos = Internal THEN <<>> ELSE [i \in 1..(Len(d.pos.gnu) - 1) |-> [file |-> Str(d.pos.gnu[i + 1].n), line |-> d.pos.gnu[i + 1].b]]]
 Expected(ds, opt) == [k \in DOMAIN ds |-> Shown(ds[k], opt)]
-OptSeq == LET S == OptsFor(Family = "expect")
+OptSeq == LET S == OptsFor(Family \in {"expect", "expecthist"})
               RECURSIVE Enum(_)
               Enum(T) == IF T = {} THEN <<>> ELSE LET o == CHOOSE o \in T : TRUE IN <<o>> \o Enum(T \ {o})
           IN Enum(S)
